@@ -2096,11 +2096,16 @@ class DiskObjectStore(PackBasedObjectStore):
         Raises:
           KeyError: if the object is not found
         """
+        # An object can be stored more than once (loose and in one or more
+        # packs). Its age is that of the newest copy: a copy that was just
+        # written belongs to an operation that may still be in flight.
+        mtimes = []
+
         # First check if it's a loose object
         if self.contains_loose(sha):
             path = self._get_shafile_path(sha)
             try:
-                return os.path.getmtime(path)
+                mtimes.append(os.path.getmtime(path))
             except FileNotFoundError:
                 pass
 
@@ -2111,12 +2116,14 @@ class DiskObjectStore(PackBasedObjectStore):
                     # Use the pack file's mtime for packed objects
                     pack_path = pack._data_path
                     try:
-                        return os.path.getmtime(pack_path)
+                        mtimes.append(os.path.getmtime(pack_path))
                     except (FileNotFoundError, AttributeError):
                         pass
             except PackFileDisappeared:
                 pass
 
+        if mtimes:
+            return max(mtimes)
         raise KeyError(sha)
 
     def _remove_pack(self, pack: Pack) -> None:
